@@ -254,7 +254,20 @@ class Algebra:
 
     @cached_property
     def matrix_basis(self):
-        return matrix_rep(self.p, self.q, self.r, signature=self.signature)
+        Rs = matrix_rep(self.p, self.q, self.r, signature=self.signature)
+        if not self.basis:
+            return Rs
+        # matrix_rep follows the default basis. In a custom basis a blade such as e31 is minus
+        # the default blade e13 and can sit at another position: relabel with the signed permutation P.
+        default = [c for g in range(self.d + 1) for c in combinations(range(self.d), g)]
+        P = np.zeros((len(self), len(self)), dtype=int)
+        cols = []
+        for row, blade in enumerate(self.canon2bin):
+            idxs = [int(char, base=16) - self.start_index for char in blade[1:]]
+            swaps = sum(i > j for n, i in enumerate(idxs) for j in idxs[n + 1:])
+            cols.append(default.index(tuple(sorted(idxs))))
+            P[row, cols[-1]] = -1 if swaps % 2 else 1
+        return [P[row, col] * (P @ Rs[col] @ P.T) for row, col in enumerate(cols)]
 
     @cached_property
     def frame(self) -> list:
